@@ -18,7 +18,7 @@ import (
 	"verif/harness/suite"
 )
 
-const ruleC02 = "strings <= 256 characters from G-MUT: rendered ASTs (canonical and free spelling), character/token mutations of them and of the suite's own paths, token soup, arbitrary Unicode, arbitrary bytes (invalid UTF-8), integer literals around the int limits; " +
+const ruleC02 = "strings <= 256 characters from G-MUT: rendered ASTs (canonical and free spelling), character/token mutations of them and of the suite's own paths, token soup, arbitrary Unicode, arbitrary bytes (invalid UTF-8), integer literals around the int limits, sentences derived top-down from /repo/jsonpath.peg itself (scripts, odd literals, every escape form), and deep nestings (filters in filter operands to depth 31, parentheses, logical chains, unions) within 256 characters; a watchdog aborts any case that exceeds 20 s (confirmed by replay) for the bounded-time clause; " +
 	"each parsed under one of 4 configs (none/functions/accessor/both); plus the bounded-exhaustive reduced grammar (enumerated completely by TestC02_Reduced). " +
 	"Oracle: exactly one of (f,nil)/(nil, one of the 4 documented syntax-check error types), Retrieve agrees with Parse, a returned function is callable. " +
 	"Non-trivial: rejected somewhere after offset 0, or rejected by a semantic restriction, or accepted with >=1 step. Distinct = distinct (string, config)."
@@ -71,8 +71,31 @@ func drawC02(rt *rapid.T) *Case {
 	g := gen.NewG(rt, gen.PathOpts{Funcs: true, RootOmit: true, BigInts: true, FuncPct: 25})
 	paths, _ := suiteCorpus()
 	s, fam := g.MutString(paths)
+	if gs, ok := grammarSentence(rt); ok {
+		s, fam = gs, famGrammar
+	}
 	cfg := gen.Uniform(rt, "config", 4)
 	return &Case{Path: s, Funcs: cfg&1 == 1, Accessor: cfg&2 == 2, Strs: []string{fam}}
+}
+
+const famGrammar = "grammar-derived"
+
+// grammarSentence derives, for one case in eight, a sentence directly from /repo/jsonpath.peg
+// (random top-down expansion of the published grammar, sometimes mutated once): it reaches
+// constructs the AST renderer never writes (scripts, odd number literals, every escape form).
+func grammarSentence(rt *rapid.T) (string, bool) {
+	if gen.Uniform(rt, "grammar-derived", 8) != 0 {
+		return "", false
+	}
+	g, err := theGrammar()
+	if err != nil {
+		return "", false
+	}
+	s := g.Generate("jsonpath", func(n int) int { return gen.Uniform(rt, "g", n) }, 6+gen.Uniform(rt, "gdepth", 10))
+	if r := []rune(s); len(r) > 256 {
+		s = string(r[:256])
+	}
+	return s, true
 }
 
 var tinyDoc = `{"a":[1,{"b":2,"a":"x"}],"b":{"a":1}}`
